@@ -243,7 +243,7 @@ impl WorkCore {
             let script = item.and_then(|i| w.co.scripts.get(stage).and_then(|s| s.get(i))).map(|l| l.script.clone()).unwrap_or_default();
             let idx = w.co.works.len();
             w.tick();
-            let id = w.new_node(top, idx, NodeKind::Leaf { flavor, script, pos: 0, always: false, hint: false });
+            let id = w.new_node(top, idx, NodeKind::Leaf { flavor, script, pos: 0, always: false, hint: false, dropwake: false });
             w.nodes[id].item = item;
             if w.trace_on {
                 let p = w.path(id);
@@ -388,7 +388,7 @@ fn build_case(case: &CoCase, top: NodeId) -> BoxF {
     match case.source {
         SourceKind::Co => {
             let src = world::with(|w| {
-                let id = w.new_node(Some(top), 0, NodeKind::Leaf { flavor: Flavor::S, script: case.src_script.clone(), pos: 0, always: false, hint: case.src_hint });
+                let id = w.new_node(Some(top), 0, NodeKind::Leaf { flavor: Flavor::S, script: case.src_script.clone(), pos: 0, always: false, hint: case.src_hint, dropwake: false });
                 w.co.src = Some(id);
                 id
             });
@@ -891,7 +891,7 @@ fn gen_work(c: &mut Cur, p: &Profile, fallible: bool) -> LeafSpec {
         let ok = !(fallible && c.coin(p.p_err));
         script.push(if ok && c.coin(20) { Step::WakeYield } else { Step::Yield(ok) });
     }
-    LeafSpec { script, always: false, hint: false }
+    LeafSpec { script, always: false, hint: false, dropwake: false }
 }
 
 pub fn gen_co_case(bytes: &[u8], cp: &CoProfile) -> CoCase {
